@@ -235,7 +235,7 @@ func loadProgram(repoDir, pkgPattern, extDir string) (*Program, error) {
 				return nil, err
 			}
 		}
-		for _, cl := range c.Ensures {
+		for _, cl := range append(append([]*Clause{}, c.Ensures...), c.Defines...) {
 			a := append(append([]ArgDesc{}, base...), c.Results...)
 			if err := emitClause(c, cl, append(a, logicals...)); err != nil {
 				return nil, err
